@@ -14,6 +14,7 @@ import (
 	"time"
 
 	"github.com/getlantern/bytemap"
+	"github.com/getlantern/zenodb"
 	"github.com/getlantern/zenodb/sql"
 
 	"verif/internal/cluster"
@@ -28,7 +29,7 @@ func init() {
 		ID:    "C16",
 		Level: "exploration",
 		Rule: "even cases: a batch of SQL strings = valid generated queries put through mutators (token delete/duplicate/swap, keyword substitution, other statement kinds DELETE/INSERT/UPDATE/UNION/SHOW/SET, arity and argument-type changes, " +
-			"unknown tables/fields/functions, truncation, byte noise), each passed to sql.Parse, sql.TableFor and DB.Query (parse+plan with a real table provider) under recover(); any panic is a violation. " +
+			"unknown tables/fields/functions, truncation, byte noise), each passed to sql.Parse, sql.TableFor and DB.Query (parse+plan with a real table provider, on a standalone database and on the passthrough leader of a cluster) under recover(); any panic and any call that does not return is a violation. " +
 			"odd cases: hostile insert payloads (nil/nested/empty-array/NaN/Inf/huge-string/empty-key/odd numeric types via DB.Insert, random/truncated/bit-flipped byte maps via DB.InsertRaw) interleaved with valid unique-id points " +
 			"on tables with and without WHEREs using dimension functions; afterwards every valid id must be present exactly once (a stalled ingest goroutine shows as ids that never arrive); " +
 			"every second odd case throws the same payloads at the leader of a real in-process cluster (2-3 partitions): barrier points must still arrive and every valid id must sit exactly once on the follower of its partition (a wedged follow pipeline shows as ids that are never replicated). " +
@@ -172,7 +173,7 @@ func c16Tokens(s string) []string {
 }
 
 // c16LexGarbage: strings that stress the tokenizer rather than the grammar
-var c16LexGarbage = []string{"``", "`", "` `", "```", "`a``b`", "''", "'", "'\\'", "\"", "\"\"", "\\", "/*", "*/", "/* x", "--", "-- x\n", "#", ";", "\x00", "0x", "0xZZ", "1e", "1e+", ".5.", "..", "::", "@@", "@", "?", ":a", "!", "!=", "<=>", "<<", "|", "||", "&&", "~", "^", "%", "{", "}", "[", "]", "\t", "\n", "\r\n", "\u00a0", "\xff\xfe", "９", "ａ", "Ω"}
+var c16LexGarbage = []string{"`x(`", "`a)`", "`b[`", "`c\\\\`", "AS `x(`", "AS `y*+`", "`.*`", "`(?`", "``", "`", "` `", "```", "`a``b`", "''", "'", "'\\'", "\"", "\"\"", "\\", "/*", "*/", "/* x", "--", "-- x\n", "#", ";", "\x00", "0x", "0xZZ", "1e", "1e+", ".5.", "..", "::", "@@", "@", "?", ":a", "!", "!=", "<=>", "<<", "|", "||", "&&", "~", "^", "%", "{", "}", "[", "]", "\t", "\n", "\r\n", "\u00a0", "\xff\xfe", "９", "ａ", "Ω"}
 
 func c16Mutate(r *rand.Rand, s string) string {
 	toks := c16Tokens(s)
@@ -239,6 +240,18 @@ func c16SQL(c *fw.Ctx) {
 		return
 	}
 	defer db.Close()
+	// the same schema on a passthrough leader of a 3-partition cluster (no followers needed: only parsing and
+	// planning are exercised), so that the cluster planner sees every string as well
+	leader, err := dbh.Open(c.Dir+"-leader", defs, dbh.Opts{VirtualTime: true, Extra: func(o *zenodb.DBOpts) {
+		o.Passthrough = true
+		o.NumPartitions = 3
+		o.ID = 7
+	}})
+	if err != nil {
+		c.Violate("open", "cannot open leader database: %v", err)
+		return
+	}
+	defer leader.Close()
 	d := &dataset{db: db, spec: &specs[0], specs: specs, retention: time.Hour}
 	d.now = gen.Base.Add(time.Minute)
 	d.until = ref.CeilTime(d.now, t.Res)
@@ -300,6 +313,7 @@ func c16SQL(c *fw.Ctx) {
 		try("sql.TableFor", s, func() { sql.TableFor(s) })
 		try("DB.Query", s, func() { db.DB.Query(s, false, nil, true) })
 		try("DB.Query(subquery)", s, func() { db.DB.Query(s, true, nil, false) })
+		try("leader DB.Query", s, func() { leader.DB.Query(s, false, nil, true) })
 		if hung {
 			break
 		}
@@ -563,6 +577,10 @@ func c16Replicated(c *fw.Ctx) {
 		{"t_all", "SELECT SUM(v) AS v FROM inbound GROUP BY k, period(1h)", []string{"k"}},
 		{"t_where", "SELECT SUM(v) AS v FROM inbound WHERE LEN(k) > 2 AND x <> 'zz' AND CONCAT('-', k, x) <> 'a-b' GROUP BY k, period(1h)", []string{"k"}},
 		{"t_star", "SELECT v, AVG(v) AS a, IF(x = 'q', SUM(v)) AS i FROM inbound WHERE SUBSTR(k, 0, 2) = 'id' OR SUBSTR(k, 0, 2) = 'zz' GROUP BY *, period(1h)", nil},
+		// a WHERE that hostile points fail quietly (no panic) while every valid point passes it: a result
+		// cached or carried over from a hostile point would keep valid points from being replicated
+		{"t_q", "SELECT SUM(v) AS v FROM inbound WHERE x = 'q' GROUP BY k, period(1h)", []string{"k"}},
+		{"t_notz", "SELECT SUM(v) AS v FROM inbound WHERE n IS NULL AND x <> 'zz' GROUP BY k, period(1h)", []string{"k"}},
 	}
 	var cdefs []cluster.TableDef
 	for _, t := range tables {
